@@ -640,13 +640,17 @@ def check_expr_insertion(root, step, parent, field, n, old, ctx) -> bool:
         # which OCCURRENCES are gone (a text may occur several times): alignment of the old and the new comment sequence
         import difflib
 
-        oseq = [t for t in otoks if t[0] == tokenize.COMMENT]
-        nseq = [t[1] for t in ntoks if t[0] == tokenize.COMMENT]
+        # (aligned on ALL tokens, so that the neighbours decide between two comments with the same text)
         gone = []
 
-        for tag, i1, i2, _, _ in difflib.SequenceMatcher(None, [t[1] for t in oseq], nseq, autojunk=False).get_opcodes():
+        for tag, i1, i2, _, _ in difflib.SequenceMatcher(None, [t[1] for t in otoks], [t[1] for t in ntoks], autojunk=False).get_opcodes():
             if tag in ('delete', 'replace'):
-                gone += oseq[i1:i2]
+                gone += [t for t in otoks[i1:i2] if t[0] == tokenize.COMMENT]
+
+        still = Counter(t[1] for t in gone) - lost  # a comment inside a replaced range that is still there (moved within the range)
+
+        if still:
+            gone = [t for t in gone if not (still[t[1]] > 0 and not still.subtract([t[1]]))]
 
         for t in gone:
             ln = t[2][0] + 1
